@@ -60,7 +60,7 @@ def multi_plan(case, opts, threads, scratch, sched=None, seed=None):
         body += ln + '\n'
     for e in extra.get('end', []):
         body += e + '\n'
-    argv = list(opts) + ['--skip-rate-test', '-t', str(case.get('timeout', 2)), '-T', '{DIR}/targets.txt', '--threads', str(threads)]
+    argv = list(opts) + ([] if case.get('rate_test') else ['--skip-rate-test']) + ['-t', str(case.get('timeout', 2)), '-T', '{DIR}/targets.txt', '--threads', str(threads)]
     plan = {'seed': seed if seed is not None else case.get('pseed', 1), 'argv': argv, 'dir': scratch, 'files': {'targets.txt': body},
             'world': world_for(targets), 'net': case.get('net', {'rtt_us': 300}), 'sched': sched or case.get('sched'), 'knobs': case.get('knobs', {})}
     if case.get('policy_text') is not None:
@@ -70,7 +70,7 @@ def multi_plan(case, opts, threads, scratch, sched=None, seed=None):
 
 def single_plan(case, idx, opts, scratch, seed=None):
     t = case['targets'][idx]
-    argv = list(opts) + ['--skip-rate-test', '-t', str(case.get('timeout', 2)), target_spelling(t)]
+    argv = list(opts) + ([] if case.get('rate_test') else ['--skip-rate-test']) + ['-t', str(case.get('timeout', 2)), target_spelling(t)]
     plan = {'seed': seed if seed is not None else case.get('pseed', 1), 'argv': argv, 'dir': scratch, 'files': {},
             'world': world_for(case['targets'], only=idx), 'net': case.get('net', {'rtt_us': 300}), 'knobs': case.get('knobs', {})}
     if case.get('policy_text') is not None:
